@@ -46,26 +46,26 @@ func influences(fn *ssa.Function, p *ssa.Parameter) bool {
 	return found
 }
 
-func runC04(c *Ctx) {
-	w := c.W
-	makeM := w.Fn(uconPkg, "", "MakeM")
-	vs := w.Fn(uconPkg, "", "VrfSortition")
-	vvs := w.Fn(uconPkg, "", "VrfVerifySortition")
-	vvp := w.Fn(uconPkg, "", "VrfVerifyPriority")
-	choose := w.Fn(uconPkg, "", "choose")
-	for _, f := range []*ssa.Function{makeM, vs, vvs, vvp, choose} {
-		c.sawFunc(fname(f))
-	}
-
-	// ------------------------------------------------------------ B1
-	c.Rule("C04.B1", "FLOWS-TO", "MakeM copies seed, role and index into pairwise disjoint constant ranges that cover the 40-byte message; every parameter of VrfVerifySortition and VrfVerifyPriority influences the returned verdict")
-	c.Min(3)
+// messageBinds: the VRF message built by MakeM binds each of its three
+// parameters in pairwise disjoint constant byte ranges that cover the whole
+// 40-byte buffer. Recognised writes: copy(m[a:b], f(param)),
+// binary.<order>.PutUintN(m[a:…], param) and m[k] = byte(f(param)).
+func messageBinds(makeM *ssa.Function) (bool, string) {
 	type rng struct {
 		lo, hi int64
 		src    string
 	}
 	var ranges []rng
 	bufLen := int64(-1)
+	srcOf := func(v ssa.Value) string {
+		src := "?"
+		for _, p := range makeM.Params {
+			if derivesFrom(v, func(x ssa.Value) bool { return x == ssa.Value(p) }) {
+				src = p.Name()
+			}
+		}
+		return src
+	}
 	for _, b := range makeM.Blocks {
 		for _, in := range b.Instrs {
 			if ms, ok := in.(*ssa.MakeSlice); ok {
@@ -78,37 +78,100 @@ func runC04(c *Ctx) {
 					bufLen = at.Len()
 				}
 			}
-			cc, ok := in.(*ssa.Call)
-			if !ok {
-				continue
+		}
+	}
+	sliceRange := func(v ssa.Value) (int64, int64, bool) {
+		dst, isSl := v.(*ssa.Slice)
+		if !isSl {
+			if _, whole := v.(*ssa.MakeSlice); whole {
+				return 0, bufLen, true
 			}
-			if bi, ok := cc.Call.Value.(*ssa.Builtin); !ok || bi.Name() != "copy" {
-				continue
+			return -1, -1, false
+		}
+		lo, hi := int64(0), bufLen
+		if dst.Low != nil {
+			var isC bool
+			if lo, isC = constInt(dst.Low); !isC {
+				return -1, -1, false
 			}
-			dst, isSl := cc.Call.Args[0].(*ssa.Slice)
-			if !isSl {
-				ranges = append(ranges, rng{-1, -1, "?"})
-				continue
+		}
+		if dst.High != nil {
+			var isC bool
+			if hi, isC = constInt(dst.High); !isC {
+				return -1, -1, false
 			}
-			lo, hi := int64(0), bufLen
-			if dst.Low != nil {
-				lo, _ = constInt(dst.Low)
-			}
-			if dst.High != nil {
-				hi, _ = constInt(dst.High)
-			}
-			src := "?"
-			for _, p := range makeM.Params {
-				if derivesFrom(cc.Call.Args[1], func(v ssa.Value) bool { return v == ssa.Value(p) }) {
-					src = p.Name()
+		}
+		return lo, hi, true
+	}
+	for _, b := range makeM.Blocks {
+		for _, in := range b.Instrs {
+			switch x := in.(type) {
+			case *ssa.Call:
+				if bi, ok := x.Call.Value.(*ssa.Builtin); ok {
+					if bi.Name() != "copy" {
+						continue
+					}
+					lo, hi, ok := sliceRange(x.Call.Args[0])
+					if !ok {
+						ranges = append(ranges, rng{-1, -1, "?"})
+						continue
+					}
+					ranges = append(ranges, rng{lo, hi, srcOf(x.Call.Args[1])})
+					continue
 				}
+				o := calleeObj(x)
+				if o == nil || o.Pkg() == nil || o.Pkg().Path() != "encoding/binary" {
+					continue
+				}
+				size := map[string]int64{"PutUint16": 2, "PutUint32": 4, "PutUint64": 8}[o.Name()]
+				if size == 0 {
+					continue
+				}
+				args := x.Call.Args
+				if len(args) < 2 {
+					continue
+				}
+				lo, hi, ok := sliceRange(args[len(args)-2])
+				if !ok || lo+size > hi {
+					ranges = append(ranges, rng{-1, -1, "?"})
+					continue
+				}
+				ranges = append(ranges, rng{lo, lo + size, srcOf(args[len(args)-1])})
+			case *ssa.Store:
+				ia, ok := x.Addr.(*ssa.IndexAddr)
+				if !ok {
+					continue
+				}
+				if _, isMsg := ia.X.(*ssa.MakeSlice); !isMsg {
+					if al, isAl := ia.X.(*ssa.Alloc); !isAl || bufLen < 0 || deref(al.Type()).Underlying().(*types.Array).Len() != bufLen {
+						continue
+					}
+				}
+				k, isC := constInt(ia.Index)
+				if !isC {
+					ranges = append(ranges, rng{-1, -1, "?"})
+					continue
+				}
+				ranges = append(ranges, rng{k, k + 1, srcOf(x.Val)})
 			}
-			ranges = append(ranges, rng{lo, hi, src})
 		}
 	}
 	sort.Slice(ranges, func(i, j int) bool { return ranges[i].lo < ranges[j].lo })
+	// merge adjacent ranges of the same source (byte-wise writes)
+	var merged []rng
+	for _, r := range ranges {
+		if n := len(merged); n > 0 && merged[n-1].src == r.src && merged[n-1].hi == r.lo && r.lo >= 0 {
+			merged[n-1].hi = r.hi
+			continue
+		}
+		merged = append(merged, r)
+	}
+	ranges = merged
 	okM := len(ranges) == 3 && bufLen == 40
 	why := ""
+	if !okM {
+		why = fmt.Sprintf("ranges %v over a %d-byte message", ranges, bufLen)
+	}
 	cover := int64(0)
 	srcs := map[string]bool{}
 	for _, r := range ranges {
@@ -123,6 +186,24 @@ func runC04(c *Ctx) {
 		okM = false
 		why = fmt.Sprintf("ranges %v over a %d-byte message", ranges, bufLen)
 	}
+	return okM, why
+}
+
+func runC04(c *Ctx) {
+	w := c.W
+	makeM := w.Fn(uconPkg, "", "MakeM")
+	vs := w.Fn(uconPkg, "", "VrfSortition")
+	vvs := w.Fn(uconPkg, "", "VrfVerifySortition")
+	vvp := w.Fn(uconPkg, "", "VrfVerifyPriority")
+	choose := w.Fn(uconPkg, "", "choose")
+	for _, f := range []*ssa.Function{makeM, vs, vvs, vvp, choose} {
+		c.sawFunc(fname(f))
+	}
+
+	// ------------------------------------------------------------ B1
+	c.Rule("C04.B1", "FLOWS-TO", "MakeM copies seed, role and index into pairwise disjoint constant ranges that cover the 40-byte message; every parameter of VrfVerifySortition and VrfVerifyPriority influences the returned verdict")
+	c.Min(3)
+	okM, why := messageBinds(makeM)
 	c.sites++
 	c.Check(fname(makeM)+"#binds-seed-role-index", makeM.Pos(), okM, ifelse(okM, "seed→[0,32) role→[32,36) index→[36,40)", "the VRF message does not bind seed, step and round index in disjoint ranges covering the message ("+why+"): a credential issued for one step or index verifies for another"))
 	for _, fn := range []*ssa.Function{vvs, vvp} {
